@@ -209,6 +209,18 @@ class Facts:
                 return True
         return False
 
+    def restart_after_stop(self, bus, stop_begin_seq):
+        """seq of the first dispatch attempt / wait_until_idle on `bus` after stop() began: by design that
+        restarts the bus (and on this code base leaves a run loop spinning on the shut-down queue, F16)."""
+        restart = None
+        for seq, t, a_, bb, ev, oc, hl in self.disps:
+            if bb == bus and seq > stop_begin_seq:
+                restart = seq if restart is None else min(restart, seq)
+        for y in self.idles:
+            if y[0] == bus and y[1] > stop_begin_seq:
+                restart = y[1] if restart is None else min(restart, y[1])
+        return restart
+
     def bus_stopped_before(self, bus, seq=None):
         s = self.stopped_from.get(bus)
         return s is not None and (seq is None or s < seq)
